@@ -12,6 +12,24 @@ def build_files(chk, wd, n_gen, n_corpus):
     # recorded witness (known finding C03:pybrace-type-set-order): always present
     wit = ('msgid ""\nmsgstr ""\n"Content-Type: text/plain; charset=UTF-8\\n"\n\n#, python-brace-format\nmsgid "{0:n}"\nmsgstr "{0:s}"\n')
     files.append(wd.write('corpus/hashorder.po', wit))
+    # cross-file state: the same escaped / raw text under different declared charsets; the same unusual character, the same msgid
+    # and the same header defect in several files (each file must be judged on its own)
+    hdr = lambda cs: ('msgid ""\nmsgstr ""\n"Project-Id-Version: x 1\\n"\n"Language: de\\n"\n"Content-Type: text/plain; charset=%s\\n"\n\n' % cs).encode()
+    body = (b'msgid "price in \\xa4"\nmsgstr "Preis in \\xa4\\n"\n\nmsgid "cost \\244"\nmsgstr "Kosten \\244\\n"\n\nmsgid "raw \xa4"\nmsgstr "roh \xa4\\n"\n\n'
+            b'msgid "bell"\nmsgstr "Glocke\\a\xbf"\n\nmsgid "bell"\nmsgstr "x"\n')
+    for cs in ('ISO-8859-1', 'ISO-8859-15', 'ISO-8859-2', 'KOI8-R', 'CP1252', 'ISO-8859-1'):
+        files.append(wd.write(f'cs/{len(files)}-{cs}/de.po', hdr(cs) + body))
+    # several format flags on one message, each checker with something to say (order of the checkers)
+    fl = ['c-format', 'python-format', 'python-brace-format', 'perl-brace-format']
+    two = 'msgid ""\nmsgstr ""\n"Content-Type: text/plain; charset=UTF-8\\n"\n\n'
+    k = 0
+    for a in fl:
+        for b in fl:
+            if a < b:
+                k += 1
+                two += f'#, {a}, {b}\nmsgid "%s items {{a}} {k}"\nmsgstr "%d Elemente {{b}} %(x)s"\n\n'
+    two += '#, ' + ', '.join(fl) + '\nmsgid "%s all {a}"\nmsgstr "%d alle {b}"\n\n#, ' + ', '.join(reversed(fl)) + '\nmsgid "%s all {a} 2"\nmsgid_plural "%s alls {a}"\nmsgstr[0] "%d {b}"\nmsgstr[1] "%d {c}"\n'
+    files.append(wd.write('corpus/multiflag.po', two))
     for i in range(n_gen):
         text, ext = CAT.gen_po(rng)
         files.append(wd.write(f'gen/f{i:03d}{ext}', text))
